@@ -252,6 +252,8 @@ pub struct ManagerHarness {
     shared_ws: Option<Arc<Mutex<Shared>>>,
     services: Vec<TransportService>,
     local: PeerId,
+    /// Peer id carried by filler events (see `fill_protocol_inbox`).
+    filler: Option<PeerId>,
 }
 
 impl ManagerHarness {
@@ -291,7 +293,7 @@ impl ManagerHarness {
             manager.register_listen_address(address);
         }
         let local = manager.verif_local_peer_id();
-        Self { manager, shared, shared_ws: None, services, local }
+        Self { manager, shared, shared_ws: None, services, local, filler: None }
     }
 
     /// Like [`ManagerHarness::new`] with a second scripted transport registered as WebSocket:
@@ -339,7 +341,7 @@ impl ManagerHarness {
             manager.register_listen_address(address);
         }
         let local = manager.verif_local_peer_id();
-        Self { manager, shared, shared_ws: Some(shared_ws), services, local }
+        Self { manager, shared, shared_ws: Some(shared_ws), services, local, filler: None }
     }
 
     /// Number of scripted transports (1 or 2).
@@ -546,12 +548,34 @@ impl ManagerHarness {
         self.shared.lock().queue.len() + self.shared_ws.as_ref().map_or(0, |s| s.lock().queue.len())
     }
 
+    /// Fill the inbox of protocol `proto` with filler events (dial failures of a peer nobody
+    /// else uses) until it is full. Returns the number of filler events queued; they are skipped
+    /// by [`ManagerHarness::protocol_events`].
+    pub fn fill_protocol_inbox(&mut self, proto: usize) -> usize {
+        let name = ProtocolName::from(format!("/verif/{proto}"));
+        let Some(tx) = self.manager.verif_protocol_tx(&name) else { return 0 };
+        let filler = *self.filler.get_or_insert_with(PeerId::random);
+        let mut n = 0;
+        while tx
+            .try_send(crate::protocol::InnerTransportEvent::DialFailure { peer: filler, addresses: Vec::new() })
+            .is_ok()
+        {
+            n += 1;
+        }
+        n
+    }
+
     /// Events observed by protocol `proto` since the last invocation.
     pub fn protocol_events(&mut self, proto: usize) -> Vec<ProtoEvent> {
         let waker = futures::task::noop_waker();
         let mut cx = Context::from_waker(&waker);
         let mut out = Vec::new();
         while let Poll::Ready(Some(event)) = self.services[proto].poll_next_unpin(&mut cx) {
+            if let ProtocolEvent::DialFailure { peer, .. } = &event {
+                if Some(*peer) == self.filler {
+                    continue;
+                }
+            }
             out.push(match event {
                 ProtocolEvent::ConnectionEstablished { peer, endpoint } =>
                     ProtoEvent::Established { peer, cid: endpoint.connection_id().verif_as_usize() },
